@@ -20,7 +20,7 @@
 //! Pair counters (`pairs_checked`, `pairs_nontrivial`) are reported in the evidence coverage.
 //!
 //! Deviations from DESIGN.md: no libFuzzer target (thorough is the proptest runner only); thorough
-//! explores ~1.5·10^6 cases ≈ 8·10^8 pairs instead of 2·10^9.
+//! explores 10^6 cases ≈ 5·10^8 pairs instead of 2·10^9.
 //!
 //! Sensitivity probes (patches kept in harness/crates/vf-plow/probes/; mkpatch + mutrun, `./check C11 quick`; all three detected within 2 cases):
 //!  1. reciprocal without the `+ 1` (`u128::MAX / u128::from(divisor)`)   -> VIOLATION (d=3, h=u64::MAX gives 3)
@@ -287,7 +287,7 @@ impl Property for C11 {
         prop_oneof![60 => hook, 1 => public].boxed()
     }
     fn budget(&self, tier: Tier) -> Budget {
-        Budget::new(tier.pick(60_000, 1_500_000), tier.pick(8, 16)).min_nontrivial(tier.pick(10_000, 100_000))
+        Budget::new(tier.pick(60_000, 1_000_000), tier.pick(8, 16)).min_nontrivial(tier.pick(10_000, 100_000))
     }
     fn rule(&self) -> String {
         "a case is one divisor (boundary-biased over 1..=2^64-1) with up to 64/256 boundary-biased hashes, each checked together with the neighbouring multiples q*d, q*d-1, q*d+d-1 \
